@@ -10,7 +10,7 @@ no output I/O off the main thread, clock never read.
 """
 import os, sys, json, re
 from common import *
-import vfbuild, pipelines
+import vfbuild, blockproc, pipelines
 
 PROP = "C02"
 QUICK = [
@@ -145,6 +145,8 @@ def replay_plan(v, rec):
 
 
 def replay(spec, bdir=None):
+    if spec.get('engine') == 'scn-blockproc':
+        return blockproc.replay(spec, bdir)
     bdir = bdir or vfbuild.build()
     differs, o, ref = rerun(bdir, spec["case"], spec["variant"])
     print("replay: serial reference %s ; variant %s -> %s" % (outcome_sig(ref), outcome_sig(o), "REPRODUCED" if differs else "not reproduced"))
@@ -243,6 +245,11 @@ def main():
     }
     if cov["scheduler_decisions"] == 0 or cov["faults_fired"]["spurious_wakeups"] == 0:
         rep.harness_error("insufficient reach: no scheduling decisions / spurious wake-ups")
+    # library-level stage: the same components in-process, many more schedules per workload (scn/blockproc.c, py/blockproc.py)
+    lib = blockproc.stage(rep, PROP, bdir, seed, t)
+    cov["library_level_stage"] = lib
+    cov["evaluations"] = cov.get("evaluations", 0) + lib["runs"]
+    cov["distinct_nontrivial"] = cov.get("distinct_nontrivial", 0) + lib["runs_with_interleaving"]
     return rep.finish(cov, ["data races between synchronisation points are invisible to a serialising scheduler",
                             "schedules are sampled, inputs come from the seeded generator"])
 
